@@ -170,6 +170,7 @@ type gstate struct {
 	nScr    int
 	nPass   int
 	custom  bool
+	q       string
 	noX     bool
 	tags    map[string]bool
 }
@@ -297,6 +298,9 @@ func (g *gstate) step() {
 			name = 1 // duplicate of "default"
 		}
 		g.add("newacct s=%s name=%d", sc, name)
+		if g.dropClobbered(sc) {
+			return
+		}
 		if !g.locked && !g.wo && name != 1 {
 			g.accts[sc] = append(g.accts[sc], gacct{num: g.maxAcct(sc) + 1})
 		}
@@ -314,6 +318,9 @@ func (g *gstate) step() {
 			g.tags["xpub.schema-override"] = true
 		}
 		g.add("newxpub s=%s name=%d x=%d ci=%d fp=%d schema=%s", sc, 1+g.nName, g.nX, uint32(g.nX)+hardened, rng.Intn(1000), schema)
+		if g.dropClobbered(sc) {
+			return
+		}
 		g.accts[sc] = append(g.accts[sc], gacct{num: g.maxAcct(sc) + 1, x: true})
 	case k < 83: // import private / public key
 		sc := g.scope()
@@ -406,6 +413,26 @@ func (g *gstate) step() {
 
 func (g *gstate) passUse(kind string, i int) {}
 
+// dropClobbered: on a tree with the `l1` defect the first account created in a custom scope overwrites that
+// scope's account 0 (reported by the oracle at that very op).  What the scope does afterwards depends on stale
+// caches of the overwritten account and cannot be named by the harness registry, so the scope is not used again.
+func (g *gstate) dropClobbered(sc string) bool {
+	if !strings.Contains(g.q, "l1") || defaultSchemas[sc] != ([2]int{}) || sc == "44:0" {
+		return false
+	}
+	if _, isDefault := defaultSchemas[sc]; isDefault {
+		return false
+	}
+	var keep []string
+	for _, s := range g.scopes {
+		if s != sc {
+			keep = append(keep, s)
+		}
+	}
+	g.scopes = keep
+	return true
+}
+
 func (g *gstate) maxAcct(sc string) uint32 {
 	var m uint32
 	for _, a := range g.accts[sc] {
@@ -422,6 +449,7 @@ func newG(rng *rand.Rand, seed []byte, q string) *gstate {
 	for _, s := range g.scopes {
 		g.accts[s] = []gacct{{num: 0}}
 	}
+	g.q = q
 	g.add("create seed=%x q=%s", seed, q)
 	return g
 }
